@@ -32,6 +32,9 @@ PLAN = dict(
          "Non-trivial: some slot's lineage contains >=3 of {dft, product, idft, big op, normalize}.",
     assumptions=["FFT64 exactness budget 2^40 on the l1-product bound (conservative: keeps the documented C01 error E far below 1/2)"],
     quick=_jobs("quick"), thorough=_jobs("thorough"),
+    fuzz=dict(target="fuzz/api_program.cpp", corpus="fuzz/corpus/api_program", extra_link=["-lgmp"],
+              quick=dict(mode="replay"),
+              thorough=dict(mode="campaign", workers=16, runs=150000)),
     required_classes=dict(all=["op:" + o for o in OPS] + ["chain:dft->product->idft->bigop->normalize", "module:NTT120", "cfg:generic", "q120chain"]
                           + ["k:%d" % k for k in range(1, 17)]),
 )
